@@ -28,7 +28,7 @@ RULE = (
 ASSUMPTIONS = ["model: ids 1..0xFFFF repeating per destination; reboot flag set exactly on datagrams before the first wrap",
                "the default (multicast) destination is always addressed with remote=None, as the library itself does"]
 FLOORS = {"quick": {"datagrams_decoded": 400000, "wraps_observed": 8, "empty_sends": 1000, "full_cycle_walks": 1,
-                    "notification_wraps": 2, "announcer_path_datagrams": 1000, "destinations_checked": 12}}
+                    "notification_wraps": 6, "notification_wraps_inside_a_datagram": 4, "announcer_path_datagrams": 1000, "destinations_checked": 12}}
 
 
 class IdModel:
@@ -181,17 +181,35 @@ def walk_notifications(ctx, spec, rng):
             else:
                 eps.append(H.IPv4EndpointOption(address=ipaddress.IPv4Address(f"10.9.2.{i + 10}"),
                                                 l4proto=H.L4Protocols.UDP, port=4000 + i))
+        late = eps[1:] if spec.get("mixed") else []
         for ep in eps:
-            eg.subscribe(ep)
-        res.update(svc=svc, eg=eg, eps=eps, nev=nev)
+            if ep not in late:
+                eg.subscribe(ep)
+        res.update(svc=svc, eg=eg, eps=eps, nev=nev, late=late)
 
     h.at(0.0, setup)
     h.run(0.0)
     rounds = spec["rounds"]
     t = 0.0
+    mixed = spec.get("mixed")
+    join_at = sorted(rng.randrange(5, 400) for _ in range(spec["nsub"] - 1)) if mixed else []
+
+    def one_round(subset):
+        eg = res["eg"]
+        eg.notify_once(subset if subset else list(eg.values.keys()))
+
     for r in range(rounds):
         t += 2.0 ** -10
-        h.at(t, lambda: res["eg"].notify_once(list(res["eg"].values.keys())))
+        if mixed and join_at and r == join_at[0]:
+            join_at.pop(0)
+            h.at(t, lambda: res["eg"].subscribe(res["late"].pop(0)))
+            t += 2.0 ** -10
+        subset = None
+        if mixed:
+            evs = list(range(1, spec["events"] + 1))
+            rng.shuffle(evs)
+            subset = evs[: rng.randrange(1, len(evs) + 1)]
+        h.at(t, one_round, subset)
     h.loop.max_iterations = 20 * rounds + 100000
     h.run(t + 1.0)
     tr = res["svc"].transport
@@ -214,6 +232,8 @@ def walk_notifications(ctx, spec, rng):
             if exp == 0xFFFF:
                 ctx.count("notification_wraps")
                 ctx.count("wraps_observed")
+                if m is not msgs[-1]:
+                    ctx.count("notification_wraps_inside_a_datagram")
             nexts[dst] = 1 if exp >= 0xFFFF else exp + 1
         if nexts.get(dst, 1) is None:
             break
@@ -300,7 +320,12 @@ def shards(tier, seed):
                         per_dst=(65535 + 300) if tier == "quick" else (2 * 65535 + 300)))
     out.append(dict(shard=20, seed=seed, mode="announcer", collect=0, n=3000))
     out.append(dict(shard=21, seed=seed, mode="announcer", collect=2.0 ** -8, n=6000))
+    # the wrap must also fall inside a multi-message datagram: 65535 is a multiple of 3 but not of 2 or 4, so with 2 or
+    # 4 events per round 0xFFFF is not the last id of its batch; the 'mixed' shard uses random subsets and a late joiner
     out.append(dict(shard=30, seed=seed, mode="notify", nsub=2, events=3, rounds=65535 // 3 + 60))
+    out.append(dict(shard=33, seed=seed, mode="notify", nsub=2, events=2, rounds=65535 // 2 + 60))
+    out.append(dict(shard=34, seed=seed, mode="notify", nsub=2, events=4, rounds=65535 // 4 + 60))
+    out.append(dict(shard=35, seed=seed, mode="notify", nsub=3, events=3, rounds=65535 // 2 + 200, mixed=True))
     if tier == "thorough":
         out.append(dict(shard=22, seed=seed, mode="announcer", collect=0, n=70000))
         out.append(dict(shard=31, seed=seed, mode="notify", nsub=4, events=1, rounds=65535 + 60))
